@@ -333,6 +333,15 @@ def build_C02(ctx, tier, rnd):
     labels = LIFE + ['ck1', 'RV']
     weights = [4 if l in ('s', 'fail', 'R', 'u1', 'u2') else 1 for l in labels]
     hs += gen.random_walks(al, labels, weights, 200 if tier == 'quick' else 4000, (10, 40), rnd, name='c02r', conformant=False)
+    # "never again ... for as long as the same release stays installed": the ban outlives LATER SUCCESSES - a newer (or an
+    # older) patch is installed and boots successfully, is perhaps rolled back, and the failed number is offered again
+    k = 0
+    for n_, m_ in ((1, 2), (1, 3), (2, 3), (2, 1), (3, 1)):
+        for enders in (('fail',), ('R',)):
+            for mid in ((), ('R',), ('rb%d' % m_,) if 'rb%d' % m_ in al.ops else ('R',), ('q', 'R', 'ok')):
+                seq = ['u%d' % n_, 'R', 's'] + list(enders) + ['u%d' % m_, 'R', 's', 'ok'] + list(mid) + ['ck%d' % n_ if 'ck%d' % n_ in al.ops else 'q', 'u%d' % n_, 'q', 'R', 'u%d' % n_, 'q']
+                hs.append(('c02late%d' % k, [al.init] + al.seq(seq)))
+                k += 1
     return hs
 
 
